@@ -957,7 +957,7 @@ func (e *env) checkLedger(res *result) {
 	got := e.alloc.AllocatedForPeer(peer0)
 	for _, t := range e.txs {
 		if t.fnRan && t.attached && t.allocErr {
-			res.fail(e.deadClass("unreserved-build"), "transaction %d (request %d, %d bytes) was queued although its reservation was refused", t.id, t.req, t.size)
+			res.fail("unreserved-build", "transaction %d (request %d, %d bytes) was queued although its reservation was refused", t.id, t.req, t.size)
 			t.allocErr = false
 		}
 		if t.reached && t.asked != t.size && !t.sizeSeen {
